@@ -1268,7 +1268,7 @@ KNOWN_CLASS = {"F4": (M_DRAINLEFT, "F4_witness.cases"), "F5": (M_PREPHELD, "F5_w
 PINS = {
     "C01": ["C01_exactly_once_fifo", "F4_refuted"], "C02": ["C02_order_gating_partial"], "C03": ["C03_once_partial"],
     "C04": ["C04_owner_count_partial"], "C05": ["C05_ret_once_partial"], "C06": ["C06_quiescence_lazy_idle_partial"],
-    "C15": ["C15_time"], "C16": ["C16_heap_partial"], "C20": ["C20_open_close_partial", "C20_filter_table"],
+    "C15": ["C15_time"], "C16": ["C16_heap_partial"], "C20": ["C20_open_close_filter", "C20_filter_table"],
 }
 PROOF_FILES = ["R/Syntax.v", "R/Rt.v", "R/Mon.v"]
 
@@ -1292,8 +1292,8 @@ CLAIM = {
                 missing="linearity of Ret values over the whole configuration, hence the forall-programs statement of C05_ok: validated on traces only"),
     "C16": dict(partial=True, proved="C16_heap_partial: translated MinRc table frees exactly on 1->0, clone/drop round trip, model frees the cell exactly then; C01 gives exactly-once consumption of main-queue closures",
                 missing="forall-programs statement of C16_ok (no leak outside F4/F5/F7, no double consumption for every object kind); machine-level memory safety is sampled under AddressSanitizer (thorough tier)"),
-    "C20": dict(partial=True, proved="C20_open_close_partial (ids, Open/Close adjacency, delivery iff allowed) and C20_filter_table (9x9 table of the translated From<LogLevel>/allows)",
-                missing="forall-programs statement of C20_ok: validated on traces only"),
+    "C20": dict(partial=False, proved="C20_open_close_filter: forall d p fuel t, exec d fuel p = Done t -> Z.of_nat (length t) < 2^64-1 -> C20_ok (observable t) = true (observable = the trace without the model-only '~' events; bound: LogIDs are u64 counters); C20_filter_table (9x9 table of the translated From<LogLevel>/allows)",
+                missing=""),
 }
 
 # which event kinds make a case "non-trivial" for a property (rule recorded in the evidence)
